@@ -98,21 +98,18 @@ Qed.
 Lemma integral_finite : forall x, integral x = true -> finite_or_nan x = true.
 Proof. intros [n k| | |]; cbn; intros H; auto; discriminate. Qed.
 
-Lemma float_clip_finite :
-  forall l x, out_of_float_range x = true ->
-    exists p, clip_float l x = LFloat (XFin (fst p) (snd p)).
+(* clipping to the float bounds: either one of the (finite) bounds, or data itself -- and then
+   data is neither below the lower nor above the upper bound, so it is not an infinity *)
+Lemma float_clip_safe :
+  forall l x, float_like l = Some x -> leaf_json_safe (clip_float l x) = true.
 Proof.
   intros l x H. unfold clip_float.
   destruct (clip_cases l x (LFloat (xpair trunc_float_clip_lo)) (xpair trunc_float_clip_lo)
-              (LFloat (xpair trunc_float_clip_hi)) (xpair trunc_float_clip_hi)) as [E|[E|(E & A & B)]].
-  - exists trunc_float_clip_lo. exact E.
-  - exists trunc_float_clip_hi. exact E.
-  - (* data itself is returned only if it is not below the lower and not above the upper clip
-       bound; the test bounds are the clip bounds, so this contradicts the test *)
-    exfalso. unfold out_of_float_range in H.
-    assert (T1 : trunc_float_test_lo = trunc_float_clip_lo) by (vm_compute; reflexivity).
-    assert (T2 : trunc_float_test_hi = trunc_float_clip_hi) by (vm_compute; reflexivity).
-    rewrite T1, T2, A, B in H. discriminate.
+              (LFloat (xpair trunc_float_clip_hi)) (xpair trunc_float_clip_hi)) as [E|[E|(E & A & B)]];
+    rewrite E; try reflexivity.
+  assert (F : finite_or_nan x = true).
+  { destruct x as [n k| | |]; try reflexivity; unfold xpair in *; cbn in A, B; discriminate. }
+  destruct l; cbn in H; inversion H; subst; exact F.
 Qed.
 
 Lemma not_out_of_float_range_finite :
@@ -138,10 +135,10 @@ Proof.
       * apply clip_hi_safe.
       * apply S, integral_finite, I.
     + destruct (out_of_float_range x) eqn:F.
-      * destruct (float_clip_finite l x F) as [p E]. rewrite E. reflexivity.
+      * now apply float_clip_safe.
       * apply S, integral_finite, I.
   - destruct (out_of_float_range x) eqn:F.
-    + destruct (float_clip_finite l x F) as [p E]. rewrite E. reflexivity.
+    + now apply float_clip_safe.
     + apply S. now apply not_out_of_float_range_finite.
 Qed.
 
